@@ -171,6 +171,7 @@ inline void hook(int kind, const volatile void* obj, long val)
 	if (!s.active) return;
 	if (!s.scheduling)
 	{
+		if (kind == SPIN) return; // a busy-wait iteration: logging it would make the log length depend on machine load
 		if (s.delayMs && kind == s.delayKind)
 		{
 			struct timespec t0, t1;
